@@ -159,6 +159,20 @@ pub fn ranges(r: &dyn Runner, tier: Tier, st: &St, with_splice: bool, out: &mut 
     }
 }
 
+/// std adaptors on the library's iterators (nth / nth_back / skip / step_by / rev / take / last / count ...)
+pub fn adaptors(_r: &dyn Runner, _tier: Tier, st: &St, ranges_only: bool, out: &mut Vec<Edge>) {
+    let len = st.len as usize;
+    for op in 0..crate::exec_range::N_ADAPT {
+        for api in [Api::Erased, Api::Typed] {
+            for a in 0..=len { for b in a..=len {
+                out.push(Edge::DrainAdapt { api, a: a as u8, b: b as u8, op });
+                for rn in [0u8, 2] { out.push(Edge::SpliceAdapt { api, a: a as u8, b: b as u8, op, rn }); }
+            } }
+            if !ranges_only { for kind in [IterKind::Iter, IterKind::IterMut] { out.push(Edge::IterAdapt { api, kind, op }); } }
+        }
+    }
+}
+
 /// iterator protocol (C14)
 pub fn iter_protocol(_r: &dyn Runner, _tier: Tier, st: &St, out: &mut Vec<Edge>) {
     let len = st.len as usize;
@@ -295,8 +309,8 @@ pub fn edges_for(prop: Prop, tier: Tier, r: &dyn Runner, st: &St) -> Vec<Edge> {
     let mut v = Vec::new();
     match prop {
         Prop::C01 => elementwise(r, tier, st, &mut v),
-        Prop::C02 => { ranges(r, tier, st, true, &mut v); v.push(Edge::Push(Api::Typed, Src::W)); v.push(Edge::Pop(Api::Typed, Sink::Downcast)); }
-        Prop::C14 => iter_protocol(r, tier, st, &mut v),
+        Prop::C02 => { ranges(r, tier, st, true, &mut v); adaptors(r, tier, st, true, &mut v); v.push(Edge::Push(Api::Typed, Src::W)); v.push(Edge::Pop(Api::Typed, Sink::Downcast)); }
+        Prop::C14 => { iter_protocol(r, tier, st, &mut v); adaptors(r, tier, st, false, &mut v); }
         Prop::C08 => { clones(r, tier, st, &mut v); movers(&mut v); }
         Prop::C09 => { lazies(r, tier, st, &mut v); movers(&mut v); }
         Prop::C07 => { forgets(r, tier, st, &mut v); movers(&mut v); }
@@ -322,12 +336,17 @@ pub fn edges_for(prop: Prop, tier: Tier, r: &dyn Runner, st: &St) -> Vec<Edge> {
             }
         }
         Prop::C17 => { rawparts(r, tier, st, &mut v); movers(&mut v); if r.resizable() { v.push(Edge::Cap(Api::Erased, CapCall::Reserve, 2)); v.push(Edge::Cap(Api::Erased, CapCall::ShrinkToFit, 0)); } }
+        // inline storage with over-aligned elements (the C12 known finding): only address arithmetic on the empty vector, no element is ever touched
+        Prop::C12 if matches!(r.backend(), crate::caps::BK::Stack | crate::caps::BK::StackN) && r.elem_align() > 8 => {
+            for variant in 0..4u8 { v.push(Edge::Bytes { variant, k: 0 }); }
+            for k in 0..16u8 { v.push(Edge::Bytes { variant: 6, k }); }
+        }
         Prop::C12 => { views(r, tier, st, &mut v); capacity(r, tier, st, bounds(prop, tier).lmax, &mut v); elementwise(r, tier, st, &mut v); v.retain(|e| !matches!(e, Edge::Cap(_, CapCall::PushRun, _))); }
         Prop::C19 => { elementwise(r, tier, st, &mut v); ranges(r, tier, st, true, &mut v); clones(r, tier, st, &mut v); }
         Prop::C11 => { elementwise(r, tier, st, &mut v); ranges(r, tier, st, true, &mut v); clones(r, tier, st, &mut v); }
         Prop::C10 => { capacity(r, tier, st, bounds(prop, tier).lmax, &mut v); elementwise(r, tier, st, &mut v); }
         Prop::C04 => { wrong_types(r, tier, st, &mut v); movers(&mut v); }
-        Prop::C03 | Prop::C05 => { elementwise(r, tier, st, &mut v); ranges(r, tier, st, true, &mut v); clones(r, tier, st, &mut v); lazies(r, tier, st, &mut v); }
+        Prop::C03 | Prop::C05 => { elementwise(r, tier, st, &mut v); ranges(r, tier, st, true, &mut v); adaptors(r, tier, st, true, &mut v); clones(r, tier, st, &mut v); lazies(r, tier, st, &mut v); }
         _ => {}
     }
     v
